@@ -205,3 +205,29 @@ Proof.
   - destruct (C12.Model.e_svc e); split; intros [H1 H2]; split; congruence.
   - split; intros [H1 H2]; [discriminate|contradiction].
 Qed.
+
+(** ** boolean obligations on the generated schema *)
+Fixpoint nodupb (l : list str) : bool :=
+  match l with [] => true | x :: r => negb (mem_str x r) && nodupb r end.
+
+Lemma nodupb_NoDup l : nodupb l = true -> NoDup l.
+Proof.
+  induction l as [|x l IH]; cbn [nodupb]; intros H; [constructor|].
+  apply andb_true_iff in H as [Hx Hl]. constructor; [|apply IH; exact Hl].
+  intros Hin. apply mem_str_In in Hin. rewrite Hin in Hx. discriminate.
+Qed.
+
+Definition schema_ok (sch : list tschema) : bool :=
+  nodupb (map t_name (filter stored sch)) &&
+  forallb (fun t => nodupb (map c_name (t_cols t))) (filter stored sch) &&
+  idlist_cols_free sch.
+
+Lemma schema_ok_spec sch : schema_ok sch = true ->
+  NoDup (map t_name (filter stored sch)) /\
+  (forall t, In t (filter stored sch) -> NoDup (map c_name (t_cols t))) /\
+  idlist_cols_free sch = true.
+Proof.
+  unfold schema_ok. intros H. apply andb_true_iff in H as [H H3]. apply andb_true_iff in H as [H1 H2].
+  split; [apply nodupb_NoDup; exact H1|]. split; [|exact H3].
+  intros t Ht. rewrite forallb_forall in H2. apply nodupb_NoDup, H2, Ht.
+Qed.
